@@ -240,8 +240,43 @@ pub fn config_case(sender: &'static str) -> Case {
     }
 }
 
+/// Treasury migrate: version gate (C18's treasury anchor) and no panic (C16).
+pub fn migrate_case(name: &'static str, ver: &'static str) -> Case {
+    Case {
+        name: format!("tre:migrate:{name}:{ver}"),
+        run: Box::new(move |f: &Filter, _mw: bool| {
+            let who = Who::new(false);
+            let mut deps = setup(&who, vec![]);
+            cw2::set_contract_version(&mut deps.storage, name, ver).unwrap();
+            let before = crate::world::dump(&deps.storage);
+            let e = env(&who);
+            let r = symcore::catch(|| treasury::contract::migrate(deps.as_mut(), e, treasury::msg::MigrateMsg {}).map_err(|e| e.to_string()));
+            finish(f, &r);
+            let current: Vec<u64> = env!("CARGO_PKG_VERSION").split('.').map(|_| 0).collect();
+            let _ = current;
+            let newer = |v: &str| -> Option<bool> {
+                let p: Vec<u64> = v.split('.').map(|x| x.parse::<u64>().ok()).collect::<Option<Vec<_>>>()?;
+                if p.len() != 3 {
+                    return None;
+                }
+                Some((p[0], p[1], p[2]) < (0, 4, 20))
+            };
+            let expect_ok = name == "treasury" && newer(ver) == Some(true);
+            claim(f, "C18:treasury migration succeeds only for the same contract name from an older version", matches!(r, Ok(Ok(_))) == expect_ok || r.is_err());
+            if !matches!(r, Ok(Ok(_))) {
+                claim(f, "C18:a refused treasury migration changes nothing", crate::world::dump(&deps.storage) == before);
+            }
+        }),
+    }
+}
+
 pub fn cases(tier: &str) -> Vec<Case> {
     let mut v = vec![];
+    for name in ["treasury", "staking"] {
+        for ver in ["0.4.19", "0.4.20", "0.4.21", "0.3.0", "1.0.0", "garbage"] {
+            v.push(migrate_case(name, ver));
+        }
+    }
     let max_len = if tier == "thorough" { 4 } else { 3 };
     for (ln, routes) in allow_lists() {
         for cand in candidates(max_len) {
